@@ -2,7 +2,10 @@
 Monitor: exit status / signal / CPU time (os.wait4) of an isolated worker process running the
 generator on one input with nothing caught; oracle: the worker must end by returning (exit 0 /
 2) or by a Rust panic with a message (exit 101) - never by a signal, another code, or after more
-than 20 s of CPU on an input of a few KB."""
+than 20 s of CPU on an input of a few KB, and never with every thread parked for good in a futex
+wait (deadlock monitor of factory.watched_run). rustc catches a proc macro's panic and goes on to
+the crate's next derive in the same process, so the same oracle is applied to a worker that runs a
+failing input and then further inputs (`after-failure` class, driver mode `serve`)."""
 import os
 import shutil
 from concurrent.futures import ThreadPoolExecutor
@@ -18,12 +21,17 @@ RULE = ("adversarial (schema, query) texts, one isolated worker process each: fr
         "interfaces and unions, with and without `__typename`, direct and through fields; mixed-type cycles; recursive input types "
         "(nullable, list, non-null pairs, self non-null, @oneOf) used as variables; selection / inline-fragment / list-type / "
         "default-value nesting 8..64, 200 and 3000; interfaces without implementors, one-member and self-referential unions; "
+        "unions that are members of themselves / of each other (cycles of 1..3), unions holding interfaces, interfaces and objects "
+        "implementing themselves or each other, each x 10 documents with type conditions on members, on the abstract type itself "
+        "and on non-members, inline and through spreads; "
         "degenerate and broken schemas (SDL and JSON); truncations, byte flips and bracket insertions of valid documents and "
-        "schemas. Non-trivial = every input except the unmodified controls; distinct by (schema text, query text)")
+        "schemas; every failing schema / query file followed, in the same worker process (panics caught, as rustc does for "
+        "proc macros), by itself again and by valid inputs over the same and other paths. Non-trivial = every input except the "
+        "unmodified controls; distinct by (schema text, query text)")
 
 CPU_LIMIT_S = 20.0
 FLOOR = {"class:spread-cycle": 60, "class:nesting": 20, "class:input-cycle": 5, "class:degenerate": 15, "class:schema-variant": 25,
-         "class:mutated-query": 300, "class:mutated-schema": 300, "exit:ok": 5, "exit:err": 100}
+         "class:mutated-query": 300, "class:mutated-schema": 300, "exit:ok": 5, "exit:err": 100, "class:after-failure": 25, "after-failure-calls": 100, "class:abstract-cycle": 90}
 
 
 def main(run):
@@ -50,6 +58,12 @@ def main(run):
         p = os.path.join(work, "v%d%s" % (i, ("." + ext) if ext else ""))
         open(p, "w").write(text)
         inputs.append(("schema-variant", label, p, "query Q { x }\n"))
+    acs = {}
+    for label, stext, doc in gen_adv.abstract_cycles():
+        if stext not in acs:
+            acs[stext] = os.path.join(work, "ac%d.graphql" % len(acs))
+            open(acs[stext], "w").write(stext)
+        inputs.append(("abstract-cycle", label, acs[stext], doc))
     inputs.append(("schema-variant", "missing-schema-file", os.path.join(work, "does_not_exist.graphql"), "query Q { x }\n"))
     # the cyclic schema as introspection JSON is not available (hand-written SDL); random schemas cover the JSON front-end
     n_rand = run.size(12, 400)
@@ -76,6 +90,24 @@ def main(run):
             p = os.path.join(work, "r%d_m%d.json" % (si, mi))
             open(p, "w", encoding="utf-8").write(stext)
             inputs.append(("mutated-schema", "json " + label, p, dtext))
+    # a failing call followed by further calls in the same process: the failing one again, a valid one through the same
+    # cache, the cyclic documents. Failing = every broken / degenerate schema file above plus broken and invalid query files.
+    okq = os.path.join(work, "ok_q.graphql")
+    open(okq, "w").write("query Q { a { id } }\n")
+    badq = os.path.join(work, "bad_q.graphql")
+    open(badq, "w").write("query Q { a { id ")
+    invq = os.path.join(work, "inv_q.graphql")
+    open(invq, "w").write("query Q { zz_nope }\n")
+    firsts = [(lab, {"schema_path": sp, "query_text": q}) for cls, lab, sp, q in inputs if cls == "schema-variant"]
+    firsts += [("broken-query-file", {"schema_path": cyc, "query_path": badq}), ("invalid-query-file", {"schema_path": cyc, "query_path": invq}),
+               ("missing-query-file", {"schema_path": cyc, "query_path": os.path.join(work, "nope_q.graphql")}),
+               ("broken-query-text", {"schema_path": cyc, "query_text": "query Q { a { "})]
+    cycdocs = gen_adv.spread_cycles()
+    for fi, (lab, first) in enumerate(firsts):
+        follow = [first, {"schema_path": cyc, "query_path": okq}, {"schema_path": cyc, "query_text": "query Q { a { id } }\n"}, first,
+                  {"schema_path": cyc, "query_text": cycdocs[fi % len(cycdocs)][1]}, {"schema_path": cyc, "query_path": okq}]
+        seqs = [dict(r, id="q%d" % i, options={"mode": "cli"}, want=[]) for i, r in enumerate([first] + follow)]
+        inputs.append(("after-failure", lab, seqs, None))
     # cycle fragments spliced into the cyclic schema's documents with random byte flips as well
     for label, doc in gen_adv.spread_cycles()[:: run.size(6, 1)]:
         for l2, q in gen_adv.mutations_of(doc, rng, 1, 3):
@@ -83,6 +115,8 @@ def main(run):
 
     def one(args):
         cls, label, sp, q = args
+        if cls == "after-failure":
+            return run_gendrv_one(sp, cpu_s=120, as_bytes=8 << 30, wall_s=240, mode="serve")
         req = {"id": "x", "schema_path": sp, "query_text": q, "options": {"mode": "cli"}, "want": []}
         r = run_gendrv_one(req, cpu_s=60, as_bytes=8 << 30, wall_s=120)
         if r["timed_out"] and r["cpu_s"] < CPU_LIMIT_S:
@@ -95,6 +129,9 @@ def main(run):
     for (cls, label, sp, q), r in zip(inputs, results):
         run.evaluated()
         run.count("class:" + cls)
+        if cls == "after-failure":
+            judge_sequence(run, label, sp, r)
+            continue
         try:
             stext = open(sp, encoding="utf-8", errors="replace").read() if os.path.exists(sp) else None
         except OSError:
@@ -105,7 +142,9 @@ def main(run):
         if len(q) >= 20000:
             case["doc_regen"] = label
         sym = None
-        if r["signal"] is not None and not r["timed_out"]:
+        if r.get("deadlock"):
+            sym = "deadlock (%s): all %d thread(s) of the worker in a futex wait without timeout, never scheduled again" % (cls, r["deadlock_threads"])
+        elif r["signal"] is not None and not r["timed_out"]:
             import re as _re
             sym = "killed-by-signal %d (%s): %s" % (r["signal"], cls, _re.sub(r"\(\d+\)", "", r["stderr"].strip().replace("\n", " "))[-120:])
         elif r["timed_out"]:
@@ -144,8 +183,56 @@ def main(run):
     return run.finish(floor=FLOOR if run.tier == "quick" else {k: (v * 20 if k.startswith("class:mutated") else v) for k, v in FLOOR.items()})
 
 
+def judge_sequence(run, label, seqs, r):
+    """a failing call, then more calls, one worker process with panics caught: every call must come back"""
+    n_back = len(r.get("responses") or [])
+    run.count("after-failure-calls", n_back)
+    texts = {}
+    for q in seqs:
+        for k in ("schema_path", "query_path"):
+            pth = q.get(k)
+            if pth and pth not in texts:
+                try:
+                    texts[pth] = open(pth, encoding="utf-8", errors="replace").read()[:20000]
+                except OSError:
+                    texts[pth] = None
+    case = {"id": "after-failure:%s" % label, "corpus": "clean", "class": "after-failure", "label": label, "sequence": seqs, "files": texts}
+    outcomes = [x.get("outcome") for x in (r.get("responses") or [])]
+    sym = None
+    if r.get("deadlock"):
+        sym = "deadlock in call %d of %d after a failing call (%s): all %d thread(s) in a futex wait without timeout; outcomes so far %s" % (
+            n_back, len(seqs), label, r["deadlock_threads"], outcomes)
+    elif r["timed_out"]:
+        if r["cpu_s"] >= CPU_LIMIT_S * len(seqs):
+            sym = "no-termination after a failing call (%s): %.1f s CPU" % (label, r["cpu_s"])
+        else:
+            run.inconclusive_case(case["id"], "wall-clock watchdog fired with %.1f s CPU" % r["cpu_s"])
+            return
+    elif r["signal"] is not None:
+        sym = "killed-by-signal %d in call %d of %d after a failing call (%s)" % (r["signal"], n_back, len(seqs), label)
+    elif r["exit"] != 0 or n_back != len(seqs):
+        sym = "worker exit %s with %d of %d calls answered after a failing call (%s): %s" % (r["exit"], n_back, len(seqs), label, r["stderr"][-120:])
+    if sym:
+        run.violation(case, sym, {"observation": {k: v for k, v in r.items() if k not in ("response", "responses")}})
+    else:
+        run.held()
+        run.nontrivial("after-failure", label)
+        if run.counters["class:after-failure"] in (1, 20):
+            run.sample({"class": "after-failure", "label": label, "outcomes": outcomes, "cpu_s": r["cpu_s"]}, limit=10)
+
+
 def replay(run, rec):
     c = rec["case"]
+    if c.get("class") == "after-failure":
+        for pth, text in (c.get("files") or {}).items():
+            if text is not None:
+                os.makedirs(os.path.dirname(pth), exist_ok=True)
+                open(pth, "w", encoding="utf-8").write(text)
+        r = run_gendrv_one(c["sequence"], cpu_s=120, as_bytes=8 << 30, wall_s=240, mode="serve")
+        run.evaluated()
+        run.count("class:after-failure")
+        judge_sequence(run, c["label"], c["sequence"], r)
+        return run.finish()
     work = os.path.join(build.BUILD, "work", "C17-replay")
     os.makedirs(work, exist_ok=True)
     sp = os.path.join(work, "s." + (c.get("schema_ext") or "graphql"))
@@ -157,7 +244,7 @@ def replay(run, rec):
     r = run_gendrv_one({"id": "x", "schema_path": sp, "query_text": q, "options": {"mode": "cli"}, "want": []})
     run.evaluated()
     print({k: v for k, v in r.items() if k != "response"})
-    if r["signal"] is not None or r["exit"] not in (0, 2, 101) or r["cpu_s"] >= CPU_LIMIT_S:
+    if r.get("deadlock") or r["signal"] is not None or r["exit"] not in (0, 2, 101) or r["cpu_s"] >= CPU_LIMIT_S:
         run.violation(c, "replayed: exit=%s signal=%s cpu=%.1f" % (r["exit"], r["signal"], r["cpu_s"]))
     else:
         run.held()
